@@ -2,6 +2,7 @@ package main
 
 import (
 	"fmt"
+	"go/token"
 	"go/types"
 	"sort"
 	"strings"
@@ -189,7 +190,42 @@ func mkCmpMatrix(ruleName string, onlyDT bool) *Rule {
 							kinds["threeway"] = true
 						case isNilConst(o1):
 							if k, ok := constInt(o0); ok && k == constOf(p.A.PredUnknown) {
-								kinds["unknown"] = true
+								// … behind a test of the three-way result of a module
+								// comparison (`if cmp < -1 { return unknown, nil }`): the
+								// callee decides which cells come here
+								var via *ssa.Call
+								for _, f := range factsAt(r.Instr.Block()) {
+									bo, ok := f.Cond.(*ssa.BinOp)
+									if !ok {
+										continue
+									}
+									// the fact must put the result below the three-way range
+									kk, isK := constInt(bo.Y)
+									below := isK && ((bo.Op == token.LSS && f.Truth && kk <= -1) || (bo.Op == token.LEQ && f.Truth && kk <= -2) ||
+										(bo.Op == token.EQL && f.Truth && kk < -1) || (bo.Op == token.GEQ && !f.Truth && kk <= -1) || (bo.Op == token.GTR && !f.Truth && kk <= -2))
+									if !below {
+										continue
+									}
+									for _, side := range []ssa.Value{bo.X} {
+										if cc, idx := callOf(side); cc != nil && idx == 0 && cc.Call.StaticCallee() != nil && inModule(cc.Call.StaticCallee()) {
+											if sg := cc.Call.StaticCallee().Signature; sg.Results().Len() == 2 && lastIsError(sg) {
+												if bt, ok := sg.Results().At(0).Type().Underlying().(*types.Basic); ok && bt.Info()&types.IsInteger != 0 {
+													via = cc
+												}
+											}
+										}
+									}
+								}
+								if via != nil {
+									sub := map[string]bool{}
+									e.cmpKinds(via.Call.StaticCallee(), e.subCtx(via, via.Call.StaticCallee(), ctx), 0, sub)
+									viaCallee = true
+									for k := range sub {
+										calleeKinds[k] = true
+									}
+								} else {
+									kinds["unknown"] = true
+								}
 							} else if call, ok := o0.(*ssa.Call); ok && call.Call.StaticCallee() == conv {
 								// conv(op == NotEqual) is the null rule; conv(cmp == 0) a three-way result
 								arg := call.Call.Args[0]
